@@ -799,8 +799,13 @@ def run(prog, rep, tier):
             if not nm_.startswith("r"):
                 rep.violation(R516, "%s|composite-name|%s" % (sb_.path, nm_), "%s (line %d) takes the composite 'archive%smember' name apart with %s(), i.e. at the FIRST separator; an archive whose own path contains '%s' "
                               "(a directory such as 'logs%s2023') is then looked up under a truncated path and none of its members is printed" % (sb_.path.split("::")[-1], c.line, sepv, nm_, sepv, sepv))
-    if n516 < 2:
-        raise CheckerError("R5.16: %d splits of the composite name found in the readers (BlockReader::new and decompress_to_ntf each have one); separator constant %r" % (n516, sepv))
+    if n516 == 0:
+        # the readers no longer take a composite string apart (the natural repair of TRIAGE row 88 hands the two
+        # parts over separately): nothing for this rule to judge
+        rep.examined(R516, "readers|no-composite-split", sample={"note": "no split of a composite archive|member name found in the readers", "separator": sepv})
+        rep.info("R5.16: the readers do not split a composite archive%smember name any more; rule vacuous" % sepv)
+    elif sepv is None:
+        raise CheckerError("R5.16: separator constant SUBPATH_SEP not found")
 
     # ------------------------------------------------------------ R5.17 the reported size of a compressed file is its decoded size, for text and records alike
     # BlockReader::filesz() is the size every reader plans with (number of blocks, end of file, the
